@@ -1,9 +1,11 @@
 #!/usr/bin/env python3
-import json, glob, sys
+"""Validates MANIFEST.json and every evidence file of this /verif tree against the schemas (run with python3-vt)."""
+import json, glob, os
 import jsonschema
-jsonschema.validate(json.load(open('/verif/MANIFEST.json')), json.load(open('/root/.vp/MANIFEST.schema.json')))
+V = os.path.dirname(os.path.dirname(os.path.abspath(__file__)))
+jsonschema.validate(json.load(open(V + '/MANIFEST.json')), json.load(open('/root/.vp/MANIFEST.schema.json')))
 es = json.load(open('/root/.vp/EVIDENCE.schema.json'))
-for f in sorted(glob.glob('/verif/evidence/*.json')):
+for f in sorted(glob.glob(V + '/evidence/*.json')):
     jsonschema.validate(json.load(open(f)), es)
     print('ok', f)
 print('valid')
